@@ -198,8 +198,8 @@ def leaf_name_check(table: NameTable, render) -> list:
         if ck not in _LEAF_CACHE:
             try:
                 text = render(obj)
-            except Exception as ex:  # pylint: disable=broad-except
-                text = None
+            except Exception:  # pylint: disable=broad-except
+                text = None     # a symbol the printer cannot render on its own: nothing to compare
             if text is None:
                 ok = True
             elif table.mode == "code":
